@@ -147,6 +147,11 @@ pub struct KnownFile {
     pub fixed: Vec<String>,
 }
 
+/// Root of the verification tree (evidence/, replays/, known_findings.json).
+pub fn root_dir() -> std::path::PathBuf {
+    std::path::PathBuf::from(std::env::var("QSIM_ROOT").unwrap_or_else(|_| "/verif".to_string()))
+}
+
 pub fn load_known(path: &std::path::Path) -> Result<KnownFile, String> {
     match std::fs::read_to_string(path) {
         Ok(s) => serde_json::from_str(&s).map_err(|e| format!("known_findings.json: {e}")),
@@ -428,7 +433,8 @@ pub fn run_batch<P: Property>(p: &P, env: &Env, known: &KnownFile, threads: usiz
     let mut unknown = 0usize;
     let mut known_hits: BTreeMap<String, u64> = BTreeMap::new();
     let mut violation_lines: Vec<String> = vec![];
-    let replay_dir = std::path::Path::new("/verif/replays");
+    let replay_dir_buf = root_dir().join("replays");
+    let replay_dir = replay_dir_buf.as_path();
     for (key, rs) in &by_key {
         let r = rs[0];
         let v = r.out.violations.iter().find(|v| v.key() == *key).unwrap().clone();
@@ -463,7 +469,7 @@ pub fn run_batch<P: Property>(p: &P, env: &Env, known: &KnownFile, threads: usiz
             minimised,
             original_decisions: r.out.exec_trace.len(),
             note: format!(
-                "replay: /verif/bin/check {} --replay {}",
+                "replay: bin/check {} --replay {}",
                 p.id(),
                 path.display()
             ),
@@ -540,7 +546,8 @@ pub fn run_batch<P: Property>(p: &P, env: &Env, known: &KnownFile, threads: usiz
             "extra": p.extra_evidence(env, env.tier),
         }
     });
-    let evdir = std::path::Path::new("/verif/evidence");
+    let evdir_buf = root_dir().join("evidence");
+    let evdir = evdir_buf.as_path();
     let _ = std::fs::create_dir_all(evdir);
     let evpath = evdir.join(format!("{}.json", p.id()));
     if let Err(e) = std::fs::write(&evpath, serde_json::to_string_pretty(&ev).unwrap()) {
